@@ -4,9 +4,9 @@ import vlib
 from props import clihist_common as C
 from props._client_family import *  # noqa
 
-TRANSLATORS = ["http_gate", "sniff", "client_dispatch"]     # client_dispatch: Gen/ClientDispatchGen.v, the dispatch of handle_recv_message read from the source (Model/ClientMgr.v, which Model/HttpBatch.v imports, interprets it)
+TRANSLATORS = ["http_gate", "sniff", "client_dispatch", "id_alloc"]     # id_alloc: Gen/IdAllocGen.v, how next_request_id / next_batch_id_range touch the shared id counter (Model/IdAlloc.v interprets it); client_dispatch: Gen/ClientDispatchGen.v, the dispatch of handle_recv_message read from the source (Model/ClientMgr.v, which Model/HttpBatch.v imports, interprets it)
 MODELS = ["clihist", "httpbatch"]
-BINS = {"release": ["clihist", "httpbatch"]}
+BINS = {"release": ["clihist", "httpbatch", "idmt"]}
 
 RULE = ("batches of 1..4 (quick) / 1..5 (thorough) entries answered by every permutation (sampled in quick), with a missing / "
         "repeated / foreign id, with two batches and single calls in flight and replies crossing; random histories on top.  Oracle on "
@@ -32,3 +32,5 @@ def run(ctx):
         ctx.note("httpbatch engine not integrated yet")
         return
     HB.run(ctx)
+    from props import idmt_common
+    idmt_common.run(ctx)      # last (ctx.record draws from ctx.rng): thread-level stress test of the id allocator, all facts must be zero
